@@ -29,7 +29,8 @@ func NewSync[T any](cap int) SyncRing[T] {
 func (r *SyncRing[T]) Init(cap int) {
 	var c uint32
 	switch {
-	case cap <= 0:
+	case cap <= 0 || uint64(cap) > 1<<31:
+		// the capacity is rounded up to a power of two held in a uint32: above 2^31 it is not representable
 		panic("ringz.SyncRing Init: invalid capacity: " + strconv.Itoa(cap))
 	case 1 == cap:
 		c = 2
